@@ -193,8 +193,12 @@ ImplBegin(d, k, r, p, s, h) ==
   /\ blob' = blob \cup Stored(d, s) /\ rd' = RdOf(atts, blob') /\ api' = ApiOf(atts, blob') /\ apierr' = ApiErrOf(atts, blob')
   /\ UNCHANGED <<tree, cur, gen, cls, atts, old, badblob>>
 GhostIdle == UNCHANGED <<want, residue, tainted, dev>> /\ settled' = FALSE
+(* A write onto a document whose winner is a tombstone is NOT bracketed: WriteUpdateWithXattrs sends a resurrection without CAS
+   (C05 finding Deviation:ResurrectNoCas), so an overtaken first attempt is written blindly - together with its references to attachment
+   bodies that the overtaking writes' sweep may have removed (met and reproduced here, see NOTES.md; recorded under C05, not re-reported). *)
 Begin(d, k, p, s, h) ==
   /\ Brackets /\ pend = None /\ Len(hist) < MaxSteps - 1
+  /\ (IF DOMAIN tree[d] = {} THEN TRUE ELSE ~tree[d][cur[d]].d)
   /\ d \notin tainted /\ (k # "push" => h = 0) /\ Legal(d, k, p, s) = TRUE
   /\ ImplBegin(d, k, nr + 1, p, s, h) /\ GhostIdle
   /\ Step("B", d, k, nr + 1, p, s, h)
